@@ -165,6 +165,15 @@ def c07(run, args):
     run.cov["exhaustive"] = True
     beh = concretise(run, bfs, ["mem", "file"], lambda i, st: [(0, 0)], 700, rng, "bfs")
     beh += concretise(run, sim, ["mem", "file"], lambda i, st: [(0, 0)], 700, rng, "sim", probe_every=5)
+    # write faults below the store API (file store): while one delivery runs no file may grow beyond a limit (RLIMIT_FSIZE), so the
+    # write of the message file fails part-way - in the buffered tail or in the middle of the copy; the delivery must be refused
+    # and leave nothing, or be stored whole
+    for k, (size, limit) in enumerate([(3000, 2048), (6000, 5096), (20000, 8192), (1500, 1024), (9000, 8192), (4097, 4096), (700, 650)]):
+        for pre in (0, 2):
+            ops = [{"op": "add", "mb": 0, "meta": 1, "size": 700} for _ in range(pre)]
+            ops += [{"op": "addfault", "mb": 0, "meta": 1, "size": size, "limit": limit}, {"op": "probe"},
+                    {"op": "add", "mb": 0, "meta": 1, "size": 700}, {"op": "probe"}, {"op": "addfault", "mb": 1, "meta": 1, "size": size, "limit": limit}, {"op": "probe"}]
+            beh.append({"id": "fault-%d-%d" % (k, pre), "store": "file", "cap": 0, "maxkb": 0, "names": ["alpha", "beta", "gamma"], "ops": ops})
     run.cov["samples"] = [bfs[len(bfs) // 2], sim[0][:12]] if bfs and sim else []
     replay_and_validate(run, vh, beh, "c07", "C07 ordered-mailbox model")
     run.cov["rule"] = ("TLC enumerates every sequence of store mutators (add/seen/remove/purge/scan over 2 mailboxes, id references "
